@@ -534,8 +534,12 @@ func jstr(v interface{}) string {
 type capWriter struct{ l *loop }
 
 func (c *capWriter) Write(ctx context.Context, b []byte) (int, error) {
-	c.l.rep.Write(b)
 	c.l.repAll.Write(b)
+	if c.l.explicitEmpty && string(b) == "{}\x00" {
+		// the peer spells a reply without values the other legal way (what services written in other languages send)
+		b = []byte("{\"parameters\":{}}\x00")
+	}
+	c.l.rep.Write(b)
 	return len(b), nil
 }
 func (c *capWriter) Read(ctx context.Context, b []byte) (int, error)        { return 0, io.EOF }
@@ -549,6 +553,8 @@ type loop struct {
 	repAll  bytes.Buffer // everything the service wrote
 	hmErrs  []string     // errors returned by HandleMessage
 	pumping bool
+	// explicitEmpty: a reply frame "{}" reaches the client as {"parameters":{}}
+	explicitEmpty bool
 }
 
 func (l *loop) pump() {
@@ -947,6 +953,46 @@ func (r *runner) runMethod(m *RMember) {
 			r.rep.Outcomes["ok call"]++
 		})
 	}
+	if len(m.Out.Fields) == 0 {
+		// a method without outputs whose peer answers with an explicit empty parameters object: through Call, Send and
+		// Upgrade alike the stub reports success
+		for _, via := range []string{"Call", "Send", "Upgrade"} {
+			via := via
+			where := "mode=explicit-empty-reply via=" + via
+			r.guard(where, func() {
+				p := pairs[0]
+				l, conn := r.newLoop(r.pkg.NewFull(r.handler))
+				l.explicitEmpty = true
+				r.cur = &script{method: m.Name, mode: "call", out: p.out}
+				fn := mobj.MethodByName(via)
+				var err error
+				switch via {
+				case "Call":
+					res := fn.Call(append([]reflect.Value{reflect.ValueOf(ctx), reflect.ValueOf(conn)}, r.buildArgs(fn, 2, m.In, p.in)...))
+					err, _ = res[len(res)-1].Interface().(error)
+				case "Send":
+					res := fn.Call(append([]reflect.Value{reflect.ValueOf(ctx), reflect.ValueOf(conn), reflect.ValueOf(uint64(0))}, r.buildArgs(fn, 3, m.In, p.in)...))
+					if err, _ = res[1].Interface().(error); err == nil {
+						rr := res[0].Call([]reflect.Value{reflect.ValueOf(ctx)})
+						err, _ = rr[len(rr)-1].Interface().(error)
+					}
+				case "Upgrade":
+					res := fn.Call(append([]reflect.Value{reflect.ValueOf(ctx), reflect.ValueOf(conn)}, r.buildArgs(fn, 2, m.In, p.in)...))
+					if err, _ = res[1].Interface().(error); err == nil {
+						rr := res[0].Call([]reflect.Value{reflect.ValueOf(ctx)})
+						err, _ = rr[len(rr)-1].Interface().(error)
+					}
+				}
+				r.rep.Executions++
+				r.rep.Steps += 3
+				if err != nil {
+					r.fail("client-error", where, "the reply {\"parameters\":{}} to a method without outputs was reported as error %v", err)
+					return
+				}
+				r.rep.Outcomes["ok explicit empty reply"]++
+			})
+		}
+	}
 	// more with k continues, oneway, upgrade: first and last pair
 	sel := []pair{pairs[0]}
 	if len(pairs) > 1 {
@@ -1201,6 +1247,28 @@ func (r *runner) runMethod(m *RMember) {
 		}
 		_ = l
 		r.rep.Outcomes["ok not-implemented"]++
+	})
+	// ... and a oneway call of such a method stays unanswered (the standard errors go through the same write path),
+	// so that the next call on the connection gets its own reply
+	r.guard("mode=not-implemented-oneway", func() {
+		where := "mode=not-implemented-oneway"
+		l, conn := r.newLoop(r.pkg.NewNone())
+		r.cur = nil
+		fn := mobj.MethodByName("Send")
+		args := append([]reflect.Value{reflect.ValueOf(ctx), reflect.ValueOf(conn), reflect.ValueOf(uint64(varlink.Oneway))}, r.buildArgs(fn, 3, m.In, ins[len(ins)-1].(Rec))...)
+		res := fn.Call(args)
+		r.rep.Executions++
+		r.rep.Steps += 2
+		if err, _ := res[1].Interface().(error); err != nil {
+			r.fail("client-error", where, "Send(Oneway) returned error %v", err)
+			return
+		}
+		l.pump()
+		if l.repAll.Len() != 0 {
+			r.fail("reply-frames", where, "a oneway call of a method the implementation does not override was answered: %q", short(l.repAll.String()))
+			return
+		}
+		r.rep.Outcomes["ok not-implemented oneway"]++
 	})
 	// undecodable parameters: InvalidParameter
 	if len(m.In.Fields) > 0 {
